@@ -76,9 +76,10 @@ impl<'a> crate::analysis::forward_interprocedural_fixpoint::Context<'a> for Cont
                 var,
                 address: _expression,
             } => {
-                // Expressions dependent on the assigned variable are no longer insertable
-                insertable_expressions.retain(|_input_var, input_expr| {
-                    !input_expr.input_vars().into_iter().any(|x| x == var)
+                // The loaded value is unknown, so the old expression for the variable
+                // and all expressions dependent on the variable are no longer insertable.
+                insertable_expressions.retain(|input_var, input_expr| {
+                    input_var != var && !input_expr.input_vars().into_iter().any(|x| x == var)
                 });
                 Some(insertable_expressions)
             }
